@@ -114,6 +114,14 @@ def check_symbolic(case) -> Outcome:
             out.label("excluded:parse-differs-from-generator")
             return out
     d = f.differentiate(*wrt)
+    if case.get("wrt_kind"):
+        # the variables handed over as str subclasses (formulaic's own Variable objects, numpy.str_)
+        from formulaic.utils.variables import Variable
+
+        w2 = [Variable(w) if case["wrt_kind"] == 1 else np.str_(w) for w in wrt]
+        d_alt = f.differentiate(*w2)
+        if libio.terms_json(d_alt) != libio.terms_json(d):
+            out.fail("wrt-as-str-subclass", f"d/d{wrt} of {f!r}: with {type(w2[0]).__name__ if w2 else 'no'} arguments {libio.terms_json(d_alt)} vs with str {libio.terms_json(d)}", shape=shape, ordering=ordering)
     before = libio.terms_json(f)
     if shape == "simple":
         dleaves = [d]
@@ -189,6 +197,7 @@ def gen_symbolic():
             "wrt": st.lists(st.sampled_from(NAMES + QUOTED + CALLS + ["zz", "a  b", "log( a )", " a"]), min_size=0, max_size=3),
             "ordering": st.sampled_from(["degree", "degree", "sort", "none"]),
             "shape": st.sampled_from(["simple", "simple", "twosided", "multipart", "keywords"]),
+            "wrt_kind": st.sampled_from([0, 0, 1, 2]),
             "mutations": st.lists(st.tuples(st.sampled_from(["del", "pop", "append", "set", "remove"]), st.integers(0, 7)), max_size=3),
         }
     )
@@ -239,6 +248,14 @@ def check_numeric(case) -> Outcome:
         return out
     orig_terms = [[x.expr for x in t.factors] for t in f]
     struct = list(mm.model_spec.structure)
+    # (a derivative may hold the same term several times, e.g. two `0` terms: the mapping keeps the last one)
+    pos_, exp_ti = 0, {}
+    for row_ in struct:
+        exp_ti[row_.term] = list(range(pos_, pos_ + len(row_.columns)))
+        pos_ += len(row_.columns)
+    got_ti = {t_: list(i_) for t_, i_ in mm.model_spec.term_indices.items()}
+    if got_ti != exp_ti:
+        out.fail("term-indices-vs-structure", f"{s!r} d/d{wrt}: term_indices {got_ti} but the structure places the terms at {exp_ti} (names {list(mm.model_spec.column_names)})", efr=efr)
     if len(struct) != len(orig_terms):
         out.fail("structure-length", f"{s!r} d/d{wrt}: {len(struct)} rows for {len(orig_terms)} terms", efr=efr)
         return out
